@@ -90,6 +90,27 @@ def scan_hooks(spec, fclass, seen_recv=None):
     return {"strip_suffix": strip_suffix, "split_once": split_once}
 
 
+def find_add_node(c, resolve_fn):
+    """The node-registration helper by role: the function of this crate that `resolve` calls with three arguments
+    (name map, graph, version string) and that splits the string (nested fn, hoisted fn or associated fn; any name)."""
+    keys = {}
+    for n in H.walk(resolve_fn["body"]):
+        if n.get("k") in ("call", "mcall"):
+            cal = n.get("callee") or {}
+            key = cal.get("inst_key") or cal.get("key")
+            b = c.by_key.get(key) if key else None
+            if b is None or "body" not in b or len(H.call_args(n)) != 3:
+                continue
+            if any(x.get("k") == "mcall" and x["name"] in ("split_once", "split", "find") for x in H.walk(b["body"])):
+                keys[key] = b
+    return list(keys.values())[0] if len(keys) == 1 else None
+
+
+def calls_of(pe, fn):
+    return [e for e in pe.trace if e["kind"] == "call" and fn is not None and
+            ((e["node"].get("callee") or {}).get("inst_key") or (e["node"].get("callee") or {}).get("key")) == fn["key"]]
+
+
 def r05_1(c, R, spec, ctx):
     rid = "R05.1"
     R.rule(rid, "resolve, directory scan: a `*.tiny` file with no root so far sets root = (node of its version, its path); with a root "
@@ -100,6 +121,10 @@ def r05_1(c, R, spec, ctx):
     if not R.anchor(rid, "fn VersionGraph::resolve", fn):
         return
     ctx["resolve"] = fn
+    add_fn = find_add_node(c, fn)
+    ctx["add_node"] = add_fn
+    if not R.anchor(rid, "the node-registration helper called by resolve (add_node)", add_fn, sp=fn["sp"]):
+        return
     # ---- run A: empty directory
     loopsA = []
 
@@ -153,7 +178,7 @@ def r05_1(c, R, spec, ctx):
             res = "Err" if U.outcome_value(out)[0] == "err" else "ok"
             assigns = [e for e in pe.trace if e["kind"] == "assign" and (H.local_of(e["node"]["l"]) or (None,))[0] == root_id]
             opq = [e for e in pe.trace if e["kind"] in ("opaque",)]
-            adds = pe.calls_named("add_node")
+            adds = calls_of(pe, add_fn)
             edges = pe.calls_named("add_edge")
             ctx["scan"][(fclass, rstate)] = (pe, out, env)
             key = "scan:%s:root-%s" % (fclass, rstate)
@@ -252,11 +277,14 @@ def r05_2_3(c, R, spec, ctx):
         return
     ns_lits["extend"] = U.call_args(v)[1][1]
     fold = U.call_args(v)[0]
-    ok_fold = U.is_call(fold, "try_fold") and tried(fold) and len(U.call_args(fold)) == 3
-    R.inst(r2, "apply_diffs:extends-the-fold-result", ok_fold, sp=fn["sp"], got=showv(fold)[:160], expect="<..>.try_fold(init, step)? is the receiver of extend")
+    # `seq.try_fold(init, |acc, x| ..)?` and `let mut acc = init; for x in seq { .. acc = ..?; }` have one normal form
+    fd = U.describe_fold(pe, fold)
+    ok_fold = fd is not None
+    R.inst(r2, "apply_diffs:extends-the-fold-result", ok_fold, sp=fn["sp"], got=showv(fold)[:160],
+           expect="the receiver of extend is a left fold over the path (try_fold(init, step)? or an accumulator updated in a for loop)")
     if not ok_fold:
         return
-    seq, init, step = U.call_args(fold)
+    seq, init = fd["src"], fd["init"]
     R.inst(r3, "fold-starts-from-root-mapping", T.show(init) == "$self.root_mapping", sp=fn["sp"], got=T.show(init), expect="self.root_mapping.clone()")
     ok_w = U.is_call(seq, "windows") and U.call_args(seq)[1:] == [("i", spec["window"])]
     R.inst(r3, "consecutive-pairs", ok_w, sp=fn["sp"], got=showv(seq)[:120], expect="<node path>.windows(2)")
@@ -272,13 +300,8 @@ def r05_2_3(c, R, spec, ctx):
             R.inst(r3, "search-goal-is-requested-version", goal is not None and U.kind_of(goal) == "cmp" and
                    U.canon_guard(goal, True) == ("eq", "$n", "$tv.node_index"), sp=fn["sp"], got=showv(goal), expect="|n| n == target_version.node_index")
             ctx["astar_tried"] = True
-    # the step closure
-    if step[0] != "closure":
-        R.unrecognised(r3, "apply_diffs:step", "fold step is not a closure literal", sp=fn["sp"])
-        return
-    mark = len(pe.trace)
-    res = pe.apply(step, [S("acc"), S("x")])
-    ev2 = pe.trace[mark:]
+    # one step of the fold
+    res, ev2 = fd["step"](S("acc"), S("x"))
     ok_apply = U.is_call(res, "apply_to") and path_of(res).endswith("apply_to") and len(U.call_args(res)) == 3
     R.inst(r2, "step:result-is-apply_to", ok_apply, sp=fn["sp"], got=showv(res)[:200], expect="diff.apply_to(<accumulator>, ns) (error context allowed)")
     if ok_apply:
@@ -423,7 +446,7 @@ def r05_5(c, R, spec, ctx):
                 "both halves mapped to one node whose name is the whole string, with Split tag None / First / Second, reusing an existing "
                 "entry (entry().or_insert*); a `parent#child.tinydiff` file adds the edge node(parent) -> node(child) carrying that file's "
                 "path; the returned versions/graph are the ones the scan filled")
-    fn = c.fn("add_node", within="resolve")
+    fn = ctx.get("add_node")
     if R.anchor(rid, "fn resolve::add_node", fn):
         tags = spec["split_tags"]
         for split in (True, False):
@@ -494,7 +517,7 @@ def r05_5(c, R, spec, ctx):
     if R.anchor(rid, "scan cell for a parent#child.tinydiff file", cell is not None and B is not None and B[1] is not None):
         pe, out, env = cell
         peB, st, loopsB, scan_env = B
-        adds = pe.calls_named("add_node")
+        adds = calls_of(pe, ctx.get("add_node"))
         edges = pe.calls_named("add_edge")
         fnr = ctx["resolve"]
         if len(edges) == 1 and len(edges[0]["args"]) == 4:
@@ -520,7 +543,8 @@ def r05_5(c, R, spec, ctx):
             want = vals.get(fld)
             okc = okc and have is not None and want is not None and T.show(have) == T.show(want) and U.is_call(have, "new", "default", "with_capacity")
         # identity of the container locals: the arguments of add_node are the locals whose value reaches the struct
-        an = [n for n in H.walk(fnr["body"]) if n.get("k") == "call" and H.callee_name(n) == "add_node"]
+        an = [n for n in H.walk(fnr["body"]) if n.get("k") == "call" and ctx.get("add_node") is not None
+              and ((n.get("callee") or {}).get("inst_key") or (n.get("callee") or {}).get("key")) == ctx["add_node"]["key"]]
         ids_v, ids_g = set(), set()
         for n in an:
             if len(n["args"]) == 3:
